@@ -12,6 +12,7 @@ out.append("## 6. Per-property design (as built)\n\nGenerated from `checks/cXX.p
 for p in props:
     i = p["id"]
     m = importlib.import_module(i.lower())
+    m.THEOREMS = list(dict.fromkeys(m.THEOREMS))
     n = NOTES.get(i, {})
     out.append(f"### {i} — {p['title']}\n")
     out.append(f"**Models.** {n.get('models', '')}\n")
